@@ -1116,6 +1116,29 @@ fn run(sc: &Scenario, plan: Plan) -> Result<(Outcome, RunInfo), RunErr> {
   }
 }
 
+/// Waits until the actor is suspended at its pause point, or its operation has returned and no loader
+/// task is running any more; false when `d` elapsed first.
+fn wait_paused_or_finished(w: &World, act: &Actor, d: Duration) -> bool {
+  let cap = Instant::now() + d;
+  loop {
+    // (short condvar wait: wakes at once when the actor pauses or its thread finishes)
+    act.wait_reached_or_done(Duration::from_micros(300));
+    if act.is_reached() {
+      return true;
+    }
+    if act.is_done() && w.settled_now() {
+      // a task may have reached the pause point just before it was seen settled
+      return true;
+    }
+    if Instant::now() >= cap {
+      return false;
+    }
+    if act.is_done() {
+      std::thread::sleep(Duration::from_micros(200));
+    }
+  }
+}
+
 fn run_in(w: &Arc<World>, sc: &Scenario, plan: Plan) -> Result<(Outcome, RunInfo), RunErr> {
   let mut info = RunInfo::default();
   let mut now = T0;
@@ -1183,22 +1206,21 @@ fn run_in(w: &Arc<World>, sc: &Scenario, plan: Plan) -> Result<(Outcome, RunInfo
     };
     *w.sh.owner.lock().unwrap() = Some(act1.clone());
     let h1 = spawn_actor(act1.clone(), op1.clone(), base1);
-    if !act1.wait_reached_or_done(long) {
+    // until the operation is suspended, or has returned and nothing it started (a background refresh,
+    // whose loader entry may be the planned pause point) is still running
+    if !wait_paused_or_finished(w, &act1, long) {
       act1.release();
       return Err(RunErr::Inconclusive("first operation neither finished nor reached its pause point in 20 s".into()));
     }
     info.first_reached = act1.is_reached();
     info.first_paused_at = act1.paused_at();
-    if !info.first_reached && !w.settle(long) {
-      return Err(RunErr::Inconclusive("loader task still running".into()));
-    }
     *w.sh.owner.lock().unwrap() = Some(act2.clone());
     let h2 = spawn_actor(act2.clone(), op2.clone(), base2);
     // B runs while A is suspended: until it is done, suspended itself, or (blocked on something A
     // holds) for the bounded pause time
-    let got = act2.wait_reached_or_done(t_pause);
+    let got = wait_paused_or_finished(w, &act2, t_pause);
     if info.first_reached {
-      if got && act2.is_done() {
+      if got && !act2.is_reached() {
         info.second_done_in_pause = true;
       } else if got {
         info.second_paused = true;
@@ -1211,7 +1233,7 @@ fn run_in(w: &Arc<World>, sc: &Scenario, plan: Plan) -> Result<(Outcome, RunInfo
       w.clock.store(t1, Ordering::SeqCst);
     }
     act1.release();
-    if act2.is_reached() && !act2.is_done() {
+    if act2.is_reached() {
       // A completes inside B's pause (or is blocked on something B holds: bounded)
       let cap = Instant::now() + t_pause;
       let mut ok = false;
